@@ -413,7 +413,7 @@ type ClientObs struct {
 func runClientPlan(t *testing.T, plan *ClientPlan, fault ClientFault, tape *rt.Tape, strat rt.Strategy, trace func(string)) (rt.Outcome, *ClientObs, *rt.Sim) {
 	obs := &ClientObs{}
 	var simRef *rt.Sim
-	out := rt.Run(t, rt.Config{Tape: tape, Strategy: strat, MaxSteps: 400000, Trace: trace}, func(s *rt.Sim) {
+	out := rt.Run(t, rt.Config{Tape: tape, Strategy: strat, MaxSteps: sessionMaxSteps(), Trace: trace, LocalSeams: rt.RaceBuild}, func(s *rt.Sim) {
 		simRef = s
 		obs.C2S = rt.NewPipe(plan.C2S)
 		obs.S2C = rt.NewPipe(plan.S2C)
